@@ -30,13 +30,14 @@ CoreOps == {
   O("to_dask", <<>>)}
 
 \* quick: every shape up to 3 x 2 x 2 and 4 x 1 x 1, all grids, depth 2
-Q_Roots == RootsOf({<<2, 2, 2>>, <<3, 2, 1>>, <<4, 1, 1>>, <<2, 1, 2>>, <<3, 3, 1>>}, 4)
+Q_Roots == RootsOf({<<2, 2, 2>>, <<3, 2, 1>>, <<4, 1, 1>>}, 4)
 \* quick, all schedules: depth 1
 QS_Roots == RootsOf({<<2, 2, 2>>, <<4, 2, 1>>, <<3, 1, 2>>}, 4)
 Q_Ops == CoreOps
 \* full: N <= 4, c <= 3, p <= 2
 F_Roots == RootsOf(ShapesUpTo(4, 3, 2), 12)
 F_Ops == CoreOps
+FS_Roots == RootsOf(ShapesUpTo(4, 3, 2), 6)
 \* negative instances
 N_Roots == RootsOf({<<4, 2, 1>>, <<2, 2, 2>>}, 4)
 N_CohOps == {O("coh_dd", <<3, -2>>)}
@@ -60,6 +61,8 @@ G_Ops == {
   O("stft", <<2>>), O("istft", <<2>>), O("rechunk", <<0>>), O("rechunk", <<1>>), O("rechunk", <<2>>),
   O("to_dask", <<>>)}
 G1_Roots == RootsOf(ShapesUpTo(4, 3, 2), 8)
+G1Q_Roots == RootsOf(ShapesUpTo(3, 2, 2) \cup {<<4, 3, 1>>, <<4, 1, 2>>}, 6)
 G2_Roots == RootsOf({<<2, 2, 2>>, <<4, 2, 1>>, <<3, 3, 1>>, <<4, 1, 2>>}, 4)
+G2Q_Roots == RootsOf({<<2, 2, 2>>, <<4, 2, 1>>}, 2)
 None_ == {}
 =============================================================================
